@@ -98,6 +98,8 @@ def config_keys(ctx, model_ok):
                 k = comp()
                 if rng.random() < 0.06:
                     k = rng.choice([1, 2, 10])  # non-string key (YAML allows it)
+                elif rng.random() < 0.06:
+                    k = ""  # an empty key is a key like any other
                 out[k] = gen_tree(depth - 1)
             return out
         return [gen_tree(depth - 1) for _ in range(rng.randint(1, 3))]
@@ -116,7 +118,8 @@ def config_keys(ctx, model_ok):
 
     n_cfg = 300 if ctx.quick() else 6000
     # corpus first: the recorded witnesses of the known findings, then generated trees
-    corpus = [{"a\\": {"b": 1}}, {"a": {1: 2}}, {"x": {"\\/": 1}}, {"1\r.1": "", "k": 1}, {"c": ["x", 1], "/c": 1}]
+    corpus = [{"a\\": {"b": 1}}, {"a": {1: 2}}, {"x": {"\\/": 1}}, {"1\r.1": "", "k": 1}, {"c": ["x", 1], "/c": 1},
+              {"formatters": {"": {"deep": 1}, "x": 2}}, {"a": {"": 5}}]
     for n_tree in range(n_cfg + len(corpus)):
         if n_tree < len(corpus):
             tree = corpus[n_tree]
@@ -284,6 +287,7 @@ def value_objects(ctx, tmp):
     # dimension groups
     dims = [d for d in u.dimensions.names if d not in u.skypix_dimensions.names] + ["htm7", "healpix5"]
     groups = [DimensionGroup(u, [d for d in dims if rng.random() < 0.2]) for _ in range(40 if ctx.quick() else 600)]
+    groups.insert(0, u.empty)  # the empty group (dataset types without dimensions: "packages", configs, ...)
     for g in groups:
         ctx.nontrivial.add(("group", tuple(g.names)))
         roundtrips("DimensionGroup", g, [
@@ -299,6 +303,12 @@ def value_objects(ctx, tmp):
         calib = rng.random() < 0.3
         dt = DatasetType(f"dt{i}_x", g, rng.choice(scs), isCalibration=calib)
         dts.append(dt)
+    dts += [DatasetType("nodims_plain", u.empty, "StructuredDataDict"), DatasetType("nodims_calib", u.empty, "StructuredDataDict", isCalibration=True),
+            DatasetType("nodims_packages", u.empty, "Packages")]
+    try:
+        dts.append(DatasetType("nodims_exp", u.empty, "ExposureF").makeComponentDatasetType("wcs"))
+    except Exception:
+        pass
     try:
         comp_parent = DatasetType("exp_like", u.conform(["instrument", "visit"]), "ExposureF")
         dts += [comp_parent, comp_parent.makeComponentDatasetType("wcs"), comp_parent.makeComponentDatasetType("image")]
@@ -359,6 +369,56 @@ def value_objects(ctx, tmp):
             ("json", lambda x: DatasetRef.from_json(x.to_json(), universe=u)),
             ("pickle", lambda x: pickle.loads(pickle.dumps(x))),
         ])
+    # refs with expanded data IDs through the Quantum form (records de-duplicated into a side table): every ref comes back with the
+    # records of *its own* data ID, also when key values of different elements coincide (visit 1 with detector 1, ...)
+    try:
+        import json as _json
+
+        from lsst.daf.butler import Quantum, SerializedQuantum
+
+        q_refs = [DatasetRef(dt_ref, reg.expandDataId(instrument="I", visit=v_, detector=d_), run="some/run")
+                  for v_, d_ in ((1, 1), (2, 2), (1, 2), (2, 1), (1, 0))]
+        for n_in in (1, 2, 5):
+            ins = q_refs[:n_in]
+            quantum = Quantum(taskName="verif.Task", dataId=ins[0].dataId, inputs={dt_ref: ins}, outputs={})
+            ctx.evaluations += 1
+            ctx.count("quantum-form")
+            try:
+                back = Quantum.from_simple(SerializedQuantum.direct(**_json.loads(quantum.to_simple().model_dump_json())), universe=u)
+                got_refs = list(back.inputs[dt_ref]) if dt_ref in back.inputs else [r_ for rs_ in back.inputs.values() for r_ in rs_]
+            except Exception as e:
+                viol(f"Quantum form of {n_in} expanded refs: round trip raised {type(e).__name__}: {str(e)[:100]}", f"quantum-form-raise:{n_in}",
+                     {"kind": "quantum-form", "refs": n_in})
+                continue
+            problems = []
+            for x in ins:
+                y = next((g_ for g_ in got_refs if g_.id == x.id), None)
+                if y is None or y != x or y.dataId != x.dataId:
+                    problems.append(f"ref of visit {x.dataId['visit']} detector {x.dataId['detector']} missing or changed")
+                    continue
+                if y.dataId.hasRecords():
+                    for el in x.dataId.dimensions.elements:
+                        rx = x.dataId.records[el]
+                        try:
+                            ry = y.dataId.records[el]
+                        except KeyError:
+                            ry = None  # (an element without a stored record is None before and absent after: both mean "no record")
+                            if rx is not None:
+                                problems.append(f"visit {x.dataId['visit']} detector {x.dataId['detector']}: no record of {el} after the round trip")
+                                continue
+                        if rx != ry and not (rx is None and ry is None):
+                            problems.append(f"visit {x.dataId['visit']} detector {x.dataId['detector']}: record of {el} differs")
+            if problems:
+                viol(f"Quantum form of {n_in} expanded refs: " + "; ".join(problems[:3]), f"quantum-form:{n_in}", {"kind": "quantum-form", "refs": n_in, "problems": problems})
+    except ImportError as e:
+        ctx.notes.append(f"Quantum form unavailable here: {e}")
+    # a ref of a dataset type without dimensions
+    ref0 = DatasetRef(DatasetType("nodims_ref", u.empty, "StructuredDataDict"), DataCoordinate.make_empty(u), run="some/run")
+    roundtrips("DatasetRef", ref0, [
+        ("simple", lambda x: DatasetRef.from_simple(x.to_simple(), universe=u)),
+        ("json", lambda x: DatasetRef.from_json(x.to_json(), universe=u)),
+        ("pickle", lambda x: pickle.loads(pickle.dumps(x))),
+    ])
     # several refs read back inside ONE persistence context (its caches are shared): composites, their components and refs that
     # share a UUID, in every order
     try:
